@@ -44,7 +44,13 @@ RULE = (
     "each sequence run with orjson, without orjson (worker) and (thorough) under the fallback backend; duplex: outbound "
     "messages of 65 KB..300 KB (dict / typed / pre-serialised) among small ones x stdin drain rates x batch arrays from the "
     "child at times spread over the whole drain window x versions without / with batching; "
-    "non-trivial = distinct (backend, sequence)"
+    "hardening: falsy values and type twins at every position ({} and empty payloads, ids 0 / '' / 7 / '7'), constants of the "
+    "anchored modules and format-hostile text as ids / methods / payloads, duck-typed models (model_dump only / "
+    "model_dump_json only), objects outside the three shapes (lists, scalars, None: sent or not is not demanded, neighbours "
+    "must be untouched), the same object sent 2-3 times, the legacy send_json entry point, stdio_client() and StdioTransport; "
+    "duplex: lines of exactly 64 KiB -1/0/+1 and multiples with batches exactly on the drain instants under all three tie "
+    "orders of the virtual loop, bursts of 99/101/250 messages against the 100-slot outgoing stream and a slow child, a child "
+    "that closes its stdout and keeps reading; non-trivial = distinct (backend, sequence)"
 )
 TRUSTED = ["scripted process behind anyio.open_process (py/verifpy/stdio_h.py)", "stdlib json used by the harness to decode the captured lines"]
 ASSUMPTIONS = [
@@ -79,41 +85,95 @@ def rand_obj(rng):
     return d
 
 
-def rand_id(rng):
-    # digit-only string ids are excluded: their JSON type under the fallback backend is C09's subject
-    return rng.choice([rng.randrange(0, 10**6), 0, -5, "id-" + G.rand_string(rng, 2), "x", "\u00e9\U0001f600"])
+def rand_id(rng, digits=True):
+    # digit-only string ids are excluded under the fallback backend only: their JSON type there is C09's subject
+    pool = [rng.randrange(0, 10**6), 0, -5, "id-" + G.rand_string(rng, 2), "x", "\u00e9\U0001f600", "", 7, rng.choice(G.MAGIC_INTS),
+            rng.choice(G.MAGIC), rng.choice(G.HOSTILE), 2**63]
+    if digits:
+        pool += ["7", "0", "007", "-1"]
+    return rng.choice(pool)
 
 
-def rand_item(rng):
+FALSY = [0, "", False, [], {}, None]
+
+
+def falsy_item(rng, digits=True):
+    """falsy values and type twins at every caller-supplied position of an outbound message"""
+    r = rng.randrange(0, 9)
+    if r == 0:
+        return {"k": "dict", "v": {}}
+    if r == 1:
+        return {"k": "dict", "v": {"jsonrpc": "2.0", "id": rng.choice([0, "", False, None, True, 7, "7"]), "result": rng.choice(FALSY)}}
+    if r == 2:
+        return {"k": "dict", "v": {"jsonrpc": "2.0", "id": 0, "method": "", "params": rng.choice([{}, [], None, 0, ""])}}
+    if r == 3:
+        return {"k": "dict", "v": {"jsonrpc": "2.0", "id": None, "error": {"code": rng.choice([0, -32600]), "message": "",
+                                                                           "data": rng.choice(FALSY)}}}
+    if r == 4:
+        return {"k": "typed", "cls": "request", "f": {"id": rng.choice([0, ""]), "method": "", "params": rng.choice([{}, None])}}
+    if r == 5:
+        return {"k": "typed", "cls": "response", "f": {"id": rng.choice([0, ""]), "result": rng.choice([{}, [], 0, False, ""])}}
+    if r == 6:
+        return {"k": "typed", "cls": "error", "f": {"id": rng.choice([0, ""]), "error": {"code": 0, "message": "", "data": rng.choice(FALSY)}}}
+    if r == 7:
+        return {"k": "typed", "cls": "legacy", "f": {"id": rng.choice([0, ""]), "result": {}}}
+    return {"k": "dict", "v": {"jsonrpc": "2.0", "id": 7, "result": {"twins": [7, "7", True, 1, "1", 0, False, "", None, [], {}]}}}
+
+
+def other_item(rng):
+    """objects that are neither str, dict nor model: duck-typed models and the writer's last resort"""
+    r = rng.randrange(0, 4)
+    v = {"jsonrpc": "2.0", "id": rng.choice([1, "d", 0]), "method": "duck/" + G.rand_string(rng, 1), "params": rng.choice([None, {"a": None}])}
+    if r == 0:
+        return {"k": "duck", "v": v}
+    if r == 1:
+        return {"k": "duckjson", "v": v}
+    if r == 2:
+        return {"k": "other", "v": rng.choice([[], [v], [1, "x", None], 0, 5, True, None, [[]]])}
+    return {"k": "other", "v": [v, 1], "tuple": True}
+
+
+def rand_item(rng, digits=True):
+    r0 = rng.random()
+    if r0 < 0.12:
+        return falsy_item(rng, digits)
+    if r0 < 0.2:
+        return other_item(rng)
     k = rng.choice(["dict", "dict", "typed", "typed", "typed", "raw"])
     if k == "raw":
         d = {"jsonrpc": "2.0", "method": "raw/" + G.rand_string(rng, 2), "params": rand_obj(rng)}
         return {"k": "raw", "s": G.encode_message(rng, d)}
     shape = rng.choice(["request", "notification", "response", "error", "legacy"])
     if shape == "request":
-        f = {"id": rand_id(rng), "method": "m/" + G.rand_string(rng, 2), "params": rng.choice([None, rand_obj(rng)])}
+        f = {"id": rand_id(rng, digits), "method": "m/" + G.rand_string(rng, 2), "params": rng.choice([None, rand_obj(rng)])}
     elif shape == "notification":
         f = {"method": "notifications/" + G.rand_string(rng, 2), "params": rng.choice([None, rand_obj(rng)])}
     elif shape == "response":
-        f = {"id": rand_id(rng), "result": rand_obj(rng)}
+        f = {"id": rand_id(rng, digits), "result": rand_obj(rng)}
     elif shape == "error":
-        f = {"id": rand_id(rng), "error": {"code": rng.choice([-32600, -32000, 1]), "message": G.rand_string(rng) or "e",
+        f = {"id": rand_id(rng, digits), "error": {"code": rng.choice([-32600, -32000, 1]), "message": G.rand_string(rng) or "e",
                                             "data": rng.choice([None, rand_obj(rng)])}}
         if f["error"]["data"] is None and rng.random() < 0.5:
             del f["error"]["data"]
     else:
         which = rng.choice(["req", "notif", "resp"])
         if which == "req":
-            f = {"id": rand_id(rng), "method": "l/" + G.rand_string(rng, 1), "params": rng.choice([None, rand_obj(rng)])}
+            f = {"id": rand_id(rng, digits), "method": "l/" + G.rand_string(rng, 1), "params": rng.choice([None, rand_obj(rng)])}
         elif which == "notif":
             f = {"method": "l/" + G.rand_string(rng, 1), "params": rng.choice([None, rand_obj(rng)])}
         else:
-            f = {"id": rand_id(rng), "result": rand_obj(rng)}
+            f = {"id": rand_id(rng, digits), "result": rand_obj(rng)}
     if k == "dict":
         d = {"jsonrpc": "2.0"}
         d.update({a: b for a, b in f.items() if b is not None or rng.random() < 0.3})
         return {"k": "dict", "v": d}
     return {"k": "typed", "cls": shape, "f": f}
+
+
+def random_r(k):
+    import random
+
+    return random.Random(f"c06-falsy-{k}")
 
 
 class Writer(Suite):
@@ -139,12 +199,32 @@ class Writer(Suite):
                 out.append({"items": base[:pos] + [{"k": "unser", "how": how}] + base[pos:], "close": True})
             out.append({"items": [{"k": "unser", "how": how}], "close": True})
             out.append({"items": [{"k": "unser", "how": how}] * 3 + base[:1], "close": False})
+        digits = self.mode != "fallback"
+        # the same object sent two or three times in a row; the legacy send_json entry point; the other entry points
+        for it in base:
+            out.append({"items": [dict(it, repeat=3)], "close": True})
+            out.append({"items": [dict(base[0], via="send_json"), dict(it, repeat=2, via="send_json"), base[2]], "close": True})
+        for api in ("function", "transport"):
+            out.append({"items": base + [{"k": "unser", "how": "object"}] + base, "close": True, "api": api})
+            out.append({"items": [], "close": True, "api": api})
+        for k in range(0, 9):
+            out.append({"items": [falsy_item(random_r(k), digits), base[0], falsy_item(random_r(k + 50), digits)], "close": True})
+        for v in ([], [1], 0, True, None):
+            out.append({"items": [base[0], {"k": "other", "v": v}, base[2]], "close": True})
         n = 1500 if budget == "quick" else 8000
         for _ in range(n):
-            items = [rand_item(rng) for _ in range(rng.randrange(0, 9))]
+            items = [rand_item(rng, digits) for _ in range(rng.randrange(0, 9))]
             for _ in range(rng.choice([0, 0, 1, 1, 2])):
                 items.insert(rng.randrange(0, len(items) + 1), {"k": "unser", "how": rng.choice(UNSER)})
-            out.append({"items": items, "close": rng.random() < 0.8})
+            if items and rng.random() < 0.15:
+                i = rng.randrange(len(items))
+                items[i] = dict(items[i], repeat=rng.choice([2, 3]))
+            if rng.random() < 0.2:
+                items = [dict(it, via="send_json") if rng.random() < 0.5 else it for it in items]
+            c = {"items": items, "close": rng.random() < 0.8}
+            if rng.random() < 0.1:
+                c["api"] = rng.choice(["function", "transport"])
+            out.append(c)
         if self.mode == "fallback":
             # the fallback models serialise with default=str, so a typed message holding an arbitrary object
             # IS serialisable there (as its repr): not an unserialisable message under that backend
@@ -168,16 +248,28 @@ class Writer(Suite):
         return json.loads(p.stdout)
 
     # ------------------------------------------------------------------ model
-    def model_line(self, case):
-        items = []
+    def model_line(self, case, obs):
+        if "harness_error" in obs:
+            return None
+        want = O.expected_lines(case["items"])
+        # objects outside the three accepted shapes ("other"): whether the writer sends them is not the property's
+        # business - the model is told what the implementation did with each of them
+        used, _, _ = O.align(obs["lines"], want)
+        items, w = [], 0
         for it in case["items"]:
             e = O.expected_line(it)
-            if e is None:
-                items.append({"k": "unser"})
-            elif "json" in e:
-                items.append({"k": "value", "v": e["json"]})
-            else:
-                items.append({"k": "raw", "s": e["text"]})
+            for _ in range(int(it.get("repeat", 1))):
+                if e is None:
+                    items.append({"k": "unser"})
+                    continue
+                sent = used[w] or not e.get("optional")
+                w += 1
+                if not sent:
+                    items.append({"k": "unser"})
+                elif "json" in e:
+                    items.append({"k": "value", "v": e["json"]})
+                else:
+                    items.append({"k": "raw", "s": e["text"]})
         return {"m": "stdio_writer", "items": items, "close": case.get("close", True), "style": "compact"}
 
     def model_obs(self, out, case):
@@ -197,13 +289,10 @@ class Writer(Suite):
     def compare(self, case, o, m):
         if "harness_error" in o or "driver_error" in m:
             return "error"
-        raws = [O.expected_line(it) for it in case["items"]]
-        raws = ["text" in e for e in raws if e is not None]
         if len(o["lines"]) != len(m["lines"]):
             return "number of lines"
         for i, (a, b) in enumerate(zip(o["lines"], m["lines"])):
-            raw = raws[i] if i < len(raws) else False
-            if self._line_key(a, raw) != self._line_key(b, raw):
+            if self._line_key(a, False) != self._line_key(b, False) and self._line_key(a, True) != self._line_key(b, True):
                 return f"line {i}"
         if o["tail"] != m["tail"]:
             return "tail"
@@ -213,7 +302,7 @@ class Writer(Suite):
 
     # ------------------------------------------------------------------ property oracle
     def oracle(self, case, o):
-        want = [e for e in (O.expected_line(it) for it in case["items"]) if e is not None]
+        want = O.expected_lines(case["items"])
         exp = {"lines": want, "stdin_closed": bool(case.get("close", True))}
         if "harness_error" in o:
             return ("client-raised", f"the stdio client raised {o['harness_error']} while writing", exp)
@@ -221,21 +310,24 @@ class Writer(Suite):
             return ("unterminated-line", "the bytes at the child's stdin do not end with a newline", exp)
         got = o["lines"]
         dropped_any = any(it["k"] == "unser" for it in case["items"])
-        if len(got) != len(want):
-            if len(got) < len(want) and dropped_any:
-                return ("drop-not-isolated", "an unserialisable message took other messages with it: fewer lines "
-                        "reached the child than serialisable messages were sent", exp)
-            return ("line-count", "the number of lines at the child's stdin is not the number of serialisable messages sent", exp)
-        for i, (g, w) in enumerate(zip(got, want)):
-            if "text" in w and "json" not in w:
-                if g.get("text") != w["text"]:
-                    return ("raw-string-altered", f"line {i} is not the pre-serialised string that was sent", exp)
-            else:
-                if "json" not in g:
-                    return ("line-not-json", f"line {i} is not a UTF-8 JSON text", exp)
-                if O.canon(g["json"]) != O.canon(w["json"]):
-                    return ("content-differs", f"line {i} does not decode to the message that was sent "
-                            "(absent optional members omitted)", exp)
+        used, bad, rest_ok = O.align(got, want)
+        if bad is not None or not rest_ok:
+            mandatory = sum(1 for w in want if not w.get("optional"))
+            if len(got) < mandatory:
+                if dropped_any:
+                    return ("drop-not-isolated", "an unserialisable message took other messages with it: fewer lines "
+                            "reached the child than serialisable messages were sent", exp)
+                return ("line-count", "the number of lines at the child's stdin is not the number of serialisable messages sent", exp)
+            if len(got) > len(want):
+                return ("line-count", "the number of lines at the child's stdin is not the number of serialisable messages sent", exp)
+            g = got[bad] if bad is not None else {}
+            nxt = next((w for w, u in zip(want, used) if not u and not w.get("optional")), None)
+            if nxt is not None and "text" in nxt and "json" not in nxt:
+                return ("raw-string-altered", "a line is not the pre-serialised string that was sent", exp)
+            if bad is not None and "json" not in g:
+                return ("line-not-json", "a line is not a UTF-8 JSON text", exp)
+            return ("content-differs", "a line does not decode to the message that was sent (absent optional members "
+                    "omitted), or the messages are out of order", exp)
         if o["cr"]:
             return ("raw-cr-in-line", "a raw carriage return inside a line", exp)
         if case.get("close", True):
@@ -285,15 +377,22 @@ class Duplex(Suite):
     name = "duplex"
 
     @staticmethod
-    def mk(version, items, drain, times):
-        stdout, prev = [], 0
+    def mk(version, items, drain, times, **extra):
+        """batches from the child at the given steps after the start: an integer step is a scripted loop
+        event exactly on that tick (subject to the loop's tie order), any other time a plain delay"""
+        stdout, prev = [], 0.0
         for t in times:
-            stdout.append({"sleep": round(t - prev, 3)})
+            t = round(t * 8) / 8  # binary fractions: every instant is an exact float
+            if float(t).is_integer():
+                stdout.append({"at": int(t)})
+            else:
+                stdout.append({"sleep": max(0.125, t - prev)})
             stdout.append({"c": BATCH_LINE.encode().hex()})
             prev = t
         case = {"items": items, "drain": drain, "stdout": stdout, "close": True}
         if version != "unset":
             case["set"] = version
+        case.update(extra)
         return case
 
     def cases(self, ctx, budget):
@@ -324,6 +423,30 @@ class Duplex(Suite):
         out.append(self.mk("2025-06-18", [SMALL_A, {"k": "big", "shape": "raw", "size": 220_000}, SMALL_C], 0, [0.5]))
         out.append(self.mk("2025-06-18", [SMALL_A, SMALL_T, SMALL_C], 16, [0.5, 3.5, 6.5, 20.5]))
         out.append(self.mk("2025-06-18", [SMALL_A, {"k": "big", "shape": "typed", "size": 220_000}], 8192, []))
+        # LIMITS: lines of exactly 64 KiB -1 / 0 / +1 and multiples (the pipe / write high-water mark), batches from
+        # the child exactly on the instants at which a 64 KiB slice / the whole line has drained, all three tie orders
+        quick = budget == "quick"
+        for lb in (65535, 65536, 65537, 131072, 131073, 196609):
+            big = {"k": "big", "shape": rng.choice(shapes), "line_bytes": lb}
+            end = -(-lb // 8192)
+            for tie in ("events", "timers", "io"):
+                times = [8, 16, end] if not quick else [rng.choice([8, 16, end])]
+                for t in times:
+                    out.append(self.mk("2025-06-18", [SMALL_A, big, SMALL_C], 8192, [t], tie=tie))
+                out.append(self.mk("2025-06-18", [big, SMALL_T], 8192, [0, 8, 16, 24, end, end + 1], tie=tie))
+        # the 100-slot outgoing stream: bursts of N-1, N, N+1, 2.5 N small messages against a slow child (the producer has
+        # to wait for the writer), rejections arriving all along
+        for n in ([99, 101, 250] if quick else [1, 99, 100, 101, 102, 200, 201, 250, 500]):
+            burst = [{"k": "dict", "v": {"jsonrpc": "2.0", "id": i, "method": "burst", "params": {"i": i}}} for i in range(n)]
+            out.append(self.mk("2025-06-18", burst, 16, [k * n // 5 for k in range(6)], tie=rng.choice(["events", "timers", "io"])))
+        # the other entry points; the legacy send_json; the same object several times; a child that closes its stdout
+        # (half-close) and keeps reading
+        big1 = {"k": "big", "shape": "typed", "size": 150_000}
+        out.append(self.mk("2025-06-18", [SMALL_A, big1, SMALL_C], 8192, [4, 12], api="transport"))
+        out.append(self.mk("unset", [SMALL_A, big1, SMALL_C], 8192, [4, 12], api="function"))
+        out.append(self.mk("2025-06-18", [dict(SMALL_A, via="send_json"), dict(big1, via="send_json", repeat=2), SMALL_C], 8192, [4, 30]))
+        out.append(self.mk("2025-06-18", [SMALL_A, big1, dict(SMALL_T, repeat=3)], 8192, [], stdout_eof=True))
+        out.append(self.mk("2025-06-18", [SMALL_A, big1, SMALL_C], 8192, [2], stdout_eof=True))
         n = 16 if budget == "quick" else 200
         for _ in range(n):
             items = []
@@ -338,8 +461,10 @@ class Duplex(Suite):
                     items.append({"k": "unser", "how": rng.choice(UNSER)})
             drain = rng.choice([1024, 8192, 30_000, 70_000])
             span = sum(it.get("size", 200) for it in items) / drain + 2
-            times = sorted(round(rng.uniform(0, span), 2) + 0.005 for _ in range(rng.randrange(0, 5)))
-            out.append(self.mk(rng.choice(["2025-06-18", "2025-06-18", "2025-07-01", "2025-03-26"]), items, drain, times))
+            times = sorted({rng.choice([round(rng.uniform(0, span) * 8) / 8, float(rng.randrange(0, int(span) + 1))])
+                            for _ in range(rng.randrange(0, 5))})
+            out.append(self.mk(rng.choice(["2025-06-18", "2025-06-18", "2025-07-01", "2025-03-26"]), items, drain, times,
+                               tie=rng.choice(["events", "timers", "io"])))
         return out
 
     # ------------------------------------------------------------------ implementation
@@ -353,15 +478,30 @@ class Duplex(Suite):
         items = []
         for it in case["items"]:
             e = O.expected_line(it)
-            if e is None:
-                items.append({"k": "unser"})
-            elif "json" in e:
-                items.append({"k": "value", "v": e["json"]})
-            else:
-                items.append({"k": "raw", "s": e["text"]})
-        # the scheduler's choice is an input of the two-writer model: which of the child's lines came from
-        # the reader task (complete rejection errors), in the observed order
-        rej = [("json" in ln and O.is_rejection(ln["json"])) for ln in obs["lines"]]
+            for _ in range(int(it.get("repeat", 1))):
+                if e is None:
+                    items.append({"k": "unser"})
+                elif "json" in e:
+                    items.append({"k": "value", "v": e["json"]})
+                else:
+                    items.append({"k": "raw", "s": e["text"]})
+        # the scheduler's choice is an input of the two-writer model: which of the child's lines came from the reader
+        # task (complete rejection errors that are not the next outbound message), in the observed order
+        want = [{"key": O.line_key(e, raw=("json" not in e)), "raw": "json" not in e, "optional": bool(e.get("optional"))}
+                for e in O.expected_lines(case["items"])]
+        roles = []
+        used, _, _ = O.align(obs["lines"], want, skippable=lambda ln: ln["is_json"] and "json" in ln and O.is_rejection(ln["json"]),
+                line_matches=lambda ln, w: (ln["text_key"] if w["raw"] else ln["key"]) == w["key"] and (w["raw"] or ln["is_json"]),
+                roles=roles)
+        roles += ["unmatched"] * (len(obs["lines"]) - len(roles))
+        rej = [r == "skipped" for r in roles]
+        # an object outside the accepted shapes that the implementation chose not to send is not sent by the model either
+        k = 0
+        for n, it in enumerate(list(items)):
+            if it["k"] != "unser":
+                if want[k]["optional"] and not used[k]:
+                    items[n] = {"k": "unser"}
+                k += 1
         return {"m": "stdio_writer", "items": items, "close": case.get("close", True), "style": "compact",
                 "rejs": [ln["json"] for ln, r in zip(obs["lines"], rej) if r], "sched": [not r for r in rej]}
 
@@ -388,29 +528,29 @@ class Duplex(Suite):
 
     # ------------------------------------------------------------------ property oracle
     def oracle(self, case, o):
-        want = [e for e in (O.expected_line(it) for it in case["items"]) if e is not None]
-        wkeys = [O.line_key(e, raw=("json" not in e)) for e in want]
-        exp = {"outbound_lines_in_order": wkeys, "other_lines": "complete -32600 rejection errors only",
-               "stdin_closed": bool(case.get("close", True))}
+        want = [{"key": O.line_key(e, raw=("json" not in e)), "raw": "json" not in e, "optional": bool(e.get("optional"))}
+                for e in O.expected_lines(case["items"])]
+        exp = {"outbound_lines_in_order": [w["key"] + (" (optional)" if w["optional"] else "") for w in want],
+               "other_lines": "complete -32600 rejection errors only", "stdin_closed": bool(case.get("close", True))}
         if "harness_error" in o:
             return ("client-raised", f"the stdio client raised {o['harness_error']}", exp)
         if o["tail"] != "":
             return ("unterminated-line", "the bytes at the child's stdin do not end with a newline", exp)
-        i = 0
-        for n, ln in enumerate(o["lines"]):
-            if i < len(want):
-                raw = "json" not in want[i]
-                if (ln["text_key"] if raw else ln["key"]) == wkeys[i] and (raw or ln["is_json"]):
-                    i += 1
-                    continue
-            if ln["is_json"] and "json" in ln and O.is_rejection(ln["json"]):
-                continue
-            if not ln["is_json"]:
+
+        def matches(ln, w):
+            return (ln["text_key"] if w["raw"] else ln["key"]) == w["key"] and (w["raw"] or ln["is_json"])
+
+        def is_rej(ln):
+            return ln["is_json"] and "json" in ln and O.is_rejection(ln["json"])
+
+        used, bad, rest_ok = O.align(o["lines"], want, skippable=is_rej, line_matches=matches)
+        if bad is not None:
+            if not o["lines"][bad]["is_json"]:
                 return ("line-torn", "the child received a line that is neither one complete outbound message nor one "
                         "complete rejection error: a message was torn (another write landed inside it)", exp)
             return ("unexpected-line", "the child received a line that is neither the next outbound message nor a "
                     "rejection error", exp)
-        if i != len(want):
+        if not rest_ok:
             return ("message-missing", "not every serialisable outbound message reached the child as a line", exp)
         if case.get("close", True):
             if not o["closed_after"]:
@@ -425,7 +565,7 @@ class Duplex(Suite):
         if "harness_error" in o:
             return "duplex/error"
         rej = [("json" in ln and O.is_rejection(ln["json"])) for ln in o["lines"]]
-        big = any(it["k"] == "big" and it["size"] > 65_536 for it in case["items"])
+        big = any(it["k"] == "big" and it.get("size", it.get("line_bytes", 0)) > 65_000 for it in case["items"])
         pos = "none"
         if any(rej):
             first_out = next((i for i, r in enumerate(rej) if not r), None)
@@ -447,7 +587,7 @@ class Duplex(Suite):
                 rest = so[:j] + [{"sleep": round(so[j]["sleep"] + so[j + 2]["sleep"], 3)}] + so[j + 3:]
             yield dict(case, stdout=rest)
         for i, it in enumerate(items):
-            if it["k"] == "big":
+            if it["k"] == "big" and "size" in it:
                 for size in (66_000, it["size"] // 2):
                     if 65_000 < size < it["size"]:
                         yield dict(case, items=items[:i] + [dict(it, size=size)] + items[i + 1:])
@@ -455,6 +595,15 @@ class Duplex(Suite):
                     yield dict(case, items=items[:i] + [dict(it, shape="dict")] + items[i + 1:])
             elif it["k"] != "unser" and it != SMALL_A:
                 yield dict(case, items=items[:i] + [SMALL_A] + items[i + 1:])
+
+
+def extra(ctx, tier):
+    """line coverage of the anchored functions reached by this run (visibility only, no verdict)"""
+    from .. import stdio_cov
+
+    for n in stdio_cov.notes(['._stdin_writer', 'stdio_client.send_json', '._send_error', '.get_streams', 'transport.']):
+        if n not in ctx.notes:
+            ctx.notes.append(n)
 
 
 def suites():
